@@ -174,6 +174,17 @@ def ob_once(run, oid):
                     per_hash = True
             if not per_hash and isinstance(term, tuple):
                 per_hash = K.mentions_call(term, "is_notar_fallback") or (K.mentions_call(term, "contains") and K.mentions_call(term, "block_hash"))
+            if not per_hash:
+                # explicit search loop: every `flag = true` in the NotarFallback arm is behind block_hash(held) == block_hash(received)
+                trues = []
+                for bb2, i2, dst2, rv2, sp2 in b.assignments():
+                    if dst2["p"] or rv2["k"] != "use" or "k" not in rv2["a"] or str(rv2["a"]["k"].get("int")) != "1" or rv2["a"]["k"].get("ty") != "bool":
+                        continue
+                    ats = G.guard_atoms(b, bb2, prog)
+                    if any(a[0] == "variant" and a[1][1] == frozenset(["NotarFallback"]) for a in ats):
+                        by_hash = any(a[0] == "eq" and a[2] is True and all(K.mentions_call(x, "block_hash") for x in a[1]) and any(K.mentions_field(x, "notar_fallback") for x in a[1]) for a in ats)
+                        trues.append(by_hash)
+                per_hash = bool(trues) and all(trues)
             o.check(per_hash, "Pool::add_cert|duplicate|NotarFallback|per-block", "a received notar-fallback certificate is a duplicate only if one for the same block hash is held", c.span,
                     {"test": mir.show(term)[:160] if isinstance(term, tuple) else None})
         for v, f in want.items():
@@ -378,3 +389,6 @@ def check(run):
     C01.ob_is_met(run, "O3.10b")
     # "its aggregate signature verifies at every other node": check_sig accepts exactly when every present half verifies
     C09.ob_sig_table(run, "O3.11")
+    # the per-block stake counters compared with the thresholds live in pool::sorted_vec
+    from . import C06
+    C06.ob_sorted_vec(run, "O3.13")
